@@ -1289,6 +1289,228 @@ class ConvE2E:
 
 
 # ---------------------------------------------------------------------------------------------------------
+# AXIBurst2Beat inside its in-tree users (AXI2AXILite, AXI2Wishbone): capability set + bursts into a real SRAM
+
+
+def spy_b2b_caps(build):
+    """Run `build()` while recording the `capabilities` every AXIBurst2Beat instantiated by the user module receives
+    (the constructor default when the user passes none).  Returns (result of build, [frozenset of burst codes])."""
+    import inspect
+    import litex.soc.interconnect.axi.axi_full as af
+    import litex.soc.interconnect.axi.axi_full_to_axi_lite as afl
+    orig = af.AXIBurst2Beat
+    default = inspect.signature(orig.__init__).parameters["capabilities"].default
+    seen = []
+
+    class Spy(orig):
+        def __init__(self, ax_burst, ax_beat, *a, **kw):
+            caps = a[0] if a else kw.get("capabilities", default)
+            seen.append(frozenset(caps))
+            orig.__init__(self, ax_burst, ax_beat, *a, **kw)
+    mods = [m for m in (af, afl) if getattr(m, "AXIBurst2Beat", None) is orig]
+    for m in mods:
+        m.AXIBurst2Beat = Spy
+    try:
+        res = build()
+    finally:
+        for m in mods:
+            m.AXIBurst2Beat = orig
+    return res, seen
+
+
+class B2BUserE2E:
+    """A real user of AXIBurst2Beat in front of a real SRAM: `axi2axilite` = AXI2AXILite + AXILiteSRAM,
+    `axi2wishbone` = AXI2Wishbone + wishbone.SRAM.  FIXED / INCR / WRAP write and read bursts of all legal lengths
+    and sizes are driven through it; model-independent checks: every beat's address on the narrow side (AXI-Lite
+    aw/ar handshakes, Wishbone acks) names the container A3.4.1 prescribes, beat count, and the data read back
+    (same burst type, then an INCR sweep of the touched window) equals a reference byte memory updated with the
+    A3.4.1 byte oracle.  The capability set the user passes to AXIBurst2Beat is read at elaboration time and
+    compared with the Lean `userCaps` (the set `user_b2b_beats` is stated for)."""
+    SIZE = 4096
+
+    def __init__(self, user, dw=32):
+        from migen import Module
+        from litex.soc.interconnect import wishbone
+        from litex.soc.interconnect.axi import (AXIInterface, AXILiteInterface, AXI2AXILite, AXI2Wishbone, AXILiteSRAM)
+        self.user, self.dw, self.aw = user, dw, 16
+        self.name = "%s(dw=%d)+SRAM/burst-types" % ({"axi2axilite": "AXI2AXILite", "axi2wishbone": "AXI2Wishbone"}[user], dw)
+        self.nb = dw // 8
+        nw = self.SIZE // self.nb
+        self.init = [sum((((7 * (w * self.nb + i) + 3) & 0xff) << (8 * i)) for i in range(self.nb)) for w in range(nw)]
+
+        def build():
+            m = Module()
+            self.axi = AXIInterface(data_width=dw, address_width=self.aw, id_width=2)
+            if user == "axi2axilite":
+                self.lite = AXILiteInterface(data_width=dw, address_width=self.aw)
+                m.submodules.bridge = AXI2AXILite(self.axi, self.lite)
+                m.submodules.ram = AXILiteSRAM(self.SIZE, init=self.init, bus=self.lite)
+            else:
+                self.wb = wishbone.Interface(data_width=dw, address_width=self.aw, addressing="word")
+                m.submodules.bridge = AXI2Wishbone(self.axi, self.wb)
+                m.submodules.ram = wishbone.SRAM(self.SIZE, init=self.init, bus=self.wb)
+            return m
+        self.module, self.caps_seen = spy_b2b_caps(build)
+        self.n = Netlist(self.module)
+        self.ref = {}
+        for w, val in enumerate(self.init):
+            for i in range(self.nb):
+                self.ref[w * self.nb + i] = (val >> (8 * i)) & 0xff
+
+    # -- narrow-side beat observation -------------------------------------------------------------------------
+    def _narrow_beat(self, write):
+        """word index addressed on the narrow side in this cycle, or None"""
+        n = self.n
+        if self.user == "axi2axilite":
+            ch = self.lite.aw if write else self.lite.ar
+            if n.getu(ch.valid) and n.getu(ch.ready):
+                return n.getu(ch.addr) // self.nb
+            return None
+        if n.getu(self.wb.cyc) and n.getu(self.wb.stb) and n.getu(self.wb.ack) and bool(n.getu(self.wb.we)) == write:
+            return n.getu(self.wb.adr)
+        return None
+
+    def run_burst(self, write, req, wbeats, seed):
+        """-> (message or None).  wbeats: [(data, strb)] for writes."""
+        import random
+        rng = random.Random(seed)
+        n, axi = self.n, self.axi
+        a, ln, size, bt = req
+        ax = axi.aw if write else axi.ar
+        other = axi.ar if write else axi.aw
+        sent = False
+        i = 0
+        narrow = []
+        rbeats = []
+        done = False
+        for cyc in range(60 * (ln + 4)):
+            n.set(other.valid, 0)
+            n.set(ax.valid, int(not sent)); n.set(ax.addr, a); n.set(ax.len, ln); n.set(ax.size, size); n.set(ax.burst, bt)
+            n.set(ax.id, 1)
+            wv = int(write and sent and i <= ln and (self.user == "axi2wishbone" or rng.random() < 0.8))
+            n.set(axi.w.valid, wv)
+            if write and i <= ln:
+                n.set(axi.w.data, wbeats[i][0]); n.set(axi.w.strb, wbeats[i][1]); n.set(axi.w.last, int(i == ln))
+            n.set(axi.b.ready, 1)
+            n.set(axi.r.ready, int(rng.random() < 0.7))
+            n.settle()
+            nb_ = self._narrow_beat(write)
+            if nb_ is not None:
+                narrow.append(nb_)
+            if (not sent) and n.getu(ax.ready):
+                sent = True
+            elif wv and n.getu(axi.w.ready):
+                i += 1
+            if (not write) and n.getu(axi.r.valid) and n.getu(axi.r.ready):
+                rbeats.append((n.getu(axi.r.data), n.getu(axi.r.last)))
+                if len(rbeats) == ln + 1:
+                    done = True
+            if write and n.getu(axi.b.valid):
+                done = True
+            n.tick()
+            if done:
+                break
+        for _ in range(3):
+            n.set(ax.valid, 0); n.set(axi.w.valid, 0); n.settle(); n.tick()
+        kind = "write" if write else "read"
+        if not done:
+            return "%s burst %r: not completed (%d narrow beats, %d R beats)" % (kind, req, len(narrow), len(rbeats))
+        want = [spec_addr(a, ln, size, bt, k) // self.nb for k in range(ln + 1)]
+        if narrow != want:
+            k = next((j for j in range(min(len(narrow), len(want))) if narrow[j] != want[j]), min(len(narrow), len(want)))
+            return "%s burst (addr=0x%x len=%d size=%d burst=%d): narrow-side beat %d addresses word 0x%x, A3.4.1 prescribes " \
+                   "word 0x%x (%d beats, %d expected)" % (kind, a, ln, size, bt, k, narrow[k] if k < len(narrow) else -1,
+                                                          want[k] if k < len(want) else -1, len(narrow), len(want))
+        if write:
+            for k, (data, strb) in enumerate(wbeats):
+                for b in beat_bytes(a, ln, size, bt, k):
+                    if (strb >> (b % self.nb)) & 1:
+                        self.ref[b] = (data >> (8 * (b % self.nb))) & 0xff
+            return None
+        if [l for (_, l) in rbeats] != [0] * ln + [1]:
+            return "read burst %r: R last flags %r" % (req, [l for (_, l) in rbeats])
+        for k, (data, _) in enumerate(rbeats):
+            for b in beat_bytes(a, ln, size, bt, k):
+                v = (data >> (8 * (b % self.nb))) & 0xff
+                if v != self.ref[b]:
+                    return "read burst (addr=0x%x len=%d size=%d burst=%d): beat %d byte 0x%x read as 0x%02x, reference memory " \
+                           "holds 0x%02x" % (a, ln, size, bt, k, b, v, self.ref[b])
+        return None
+
+    def requests(self, rng, tier):
+        smax = log2i(self.nb)
+        R = []
+        for size in range(smax + 1):
+            nbytes = 1 << size
+            for ln in (1, 3, 7, 15):
+                win = (ln + 1) * nbytes
+                base = rng.randrange(self.SIZE // win) * win
+                R.append((base + rng.randrange(ln + 1) * nbytes, ln, size, WRAP))
+            for ln in ((0, 1, 2, 5, 15) if tier == "quick" else (0, 1, 2, 3, 4, 7, 8, 15, 16, 31)):
+                room = self.SIZE - (ln + 1) * nbytes
+                R.append(((rng.randint(0, room) // nbytes) * nbytes + rng.randrange(nbytes), ln, size, INCR))
+            for ln in (0, 1, 3):
+                R.append((rng.randrange(self.SIZE), ln, size, FIXED))
+        return R
+
+    def run_history(self, history):
+        self.__init__(self.user, self.dw)
+        for h in history:
+            m = self.run_burst(h["b2buser"] == "write", tuple(h["request"]), [tuple(x) for x in h.get("wbeats", [])], h["stall_seed"])
+            if m:
+                return m
+        return None
+
+    def run(self, cov, seed, tier, lean=None):
+        import random
+        rng = random.Random(seed * 733 + self.dw)
+        dis = []
+        # capability set of the real user vs the set the Lean corollary is stated for
+        if lean is not None:
+            ans = lean.call_batch(["b2bcaps %s" % self.user])[0].split()
+            model = frozenset([FIXED] + ([INCR] if ans[0] == "1" else []) + ([WRAP] if ans[1] == "1" else []))
+            if self.caps_seen != [model]:
+                dis.append({"instance": self.name, "kind": "b2b-caps", "impl": [sorted(c) for c in self.caps_seen],
+                            "model": sorted(model)})
+        cov.count("AXIBurst2Beat users: capability sets compared with userCaps")
+        history = []
+        nbursts = 0
+        full = (1 << self.nb) - 1
+        for req in self.requests(rng, tier):
+            a, ln, size, bt = req
+            wbeats = []
+            for k in range(ln + 1):
+                lanes = 0
+                for b in beat_bytes(a, ln, size, bt, k):
+                    lanes |= 1 << (b % self.nb)
+                wbeats.append((rng.getrandbits(self.dw), lanes & rng.choice((full, full, rng.getrandbits(self.nb)))))
+            al = (a // self.nb) * self.nb
+            if bt == WRAP:
+                win = (ln + 1) << size
+                al = ((a // win) * win // self.nb) * self.nb
+            span = max(1, -(-(((ln + 1) << size) + (a - al if bt != WRAP else 0)) // self.nb))
+            sweep = (al, min(span, (self.SIZE - al) // self.nb) - 1, log2i(self.nb), INCR)
+            for write, rq in ((True, req), (False, req), (False, sweep)):
+                h = {"b2buser": "write" if write else "read", "request": list(rq), "stall_seed": rng.getrandbits(30)}
+                if write:
+                    h["wbeats"] = [list(x) for x in wbeats]
+                history.append(h)
+                m = self.run_burst(write, rq, wbeats, h["stall_seed"])
+                nbursts += 1
+                cov.count("AXIBurst2Beat users: bursts of type %d" % rq[3])
+                if m:
+                    d = dict(h)
+                    d.update({"instance": self.name, "kind": "monitor:" + m, "monitor": m, "history": list(history)})
+                    dis.append(d)
+                    break
+            if any(d.get("kind", "").startswith("monitor:") for d in dis):
+                break
+        cov.add_cases(self.name, nbursts, nbursts, exhaustive=False)
+        cov.instances[-1]["mode"] = "E (monitor + capability-set tie)"
+        return dis
+
+
+# ---------------------------------------------------------------------------------------------------------
 # Parallel job runner with the extra job kinds of this property
 
 
